@@ -26,6 +26,10 @@ CLAIMED = {
  "C02": ("necessary structural conditions of 'exactly the features at or above the threshold': filter shape and placement at every candidate "
          "site, total candidate/grouping loops, select-before-assign, removal decision tables, sibling agreement. That grouping keeps one "
          "survivor per key is not decided", "4 C02", "comparison-shape lint over value-flow, loop-totality and ordering lints, decision tables by abstract evaluation, twin comparison (R-CMP, R-PLUMB, R-LOOP, R-ORDER, R-TABLE, R-TWIN)"),
+ "C03": ("decision tables of the all-compliant relaxation, of the offered cardinalities, of the selection among cardinalities and of the tuning "
+         "pipeline, extracted from the source over abstract cardinality/probability classes and compared with the property statement; "
+         "twin of the direct/inverse feature inference. Necessary conditions only: conformance under ShEx semantics is not decided", "4 C03",
+         "decision-table extraction by abstract evaluation of the AST, loop-totality lint, twin comparison (R-TABLE, R-LOOP, R-TWIN)"),
 }
 NA_REASON = {
  "C08": "relates the outputs of different parsers (rdflib readers, two hand-written scanners, TSV splitter, decompressors) on "
